@@ -732,7 +732,18 @@ pub fn mp4_rich(r: &mut Rng) -> Vec<u8> {
             let at = mark(&mut p, 8);
             pp.push((at + 12, 8, T::Moof(f)));
         }
-        let tfhd = fullbox(b"tfhd", 0, if with_base { 1 } else { 0 }, &p);
+        // other tf_flags at random: default-base-is-moof and duration-is-empty carry no field,
+        // the four optional-field flags add four bytes each after the base offset
+        let mut flags: u32 = if with_base { 1 } else { 0 };
+        for (bit, field) in [(0x02_0000u32, false), (0x01_0000, false), (0x02, true), (0x08, true), (0x10, true), (0x20, true)] {
+            if r.chance(1, 3) {
+                flags |= bit;
+                if field {
+                    p.extend(1u32.to_be_bytes());
+                }
+            }
+        }
+        let tfhd = fullbox(b"tfhd", 0, flags, &p);
         let trun = fullbox(b"trun", 0, 0, &0u32.to_be_bytes());
         let traf = bmff_box(b"traf", &[tfhd, trun].concat());
         let moof = bmff_box(b"moof", &[mfhd.clone(), traf].concat());
